@@ -136,7 +136,7 @@ def run(ctx):
     for r in ctx.pmap(work_mask, [(n,) for n in range(6, 0, -1)]):
         ctx.take(r)
     # (c)
-    names = ["k2a", "k2vec", "k2w3"] + (["k2b", "k2m1", "k3a", "k2mat", "k2eps"] if ctx.thorough else [])
+    names = ["k2a", "k2vec", "k2w3", "k2m1", "k2eps2"] + (["k2b", "k3a", "k2mat", "k2eps"] if ctx.thorough else [])
     tasks = []
     for name in names:
         d = ml.get_driver(name, ctx.seed)
